@@ -10,7 +10,7 @@
 EXTENDS IndexMaps, TLC, Json, IOUtils, SequencesExt
 
 CONSTANTS BS,    \* extents 0..BS per axis for the tables of the maps
-          FLO,   \* for_each: lowest value of a region bound
+          FNEG,  \* for_each: region bounds range from -FNEG ...
           FHI    \* for_each: highest value of a region bound
 
 Class(n) == IF n = 0 THEN "empty" ELSE IF n = 1 THEN "single" ELSE "many"
@@ -54,7 +54,7 @@ ForEachCase(lo, hi) ==
 
 E2 == (0..BS) \X (0..BS)
 E3 == (0..BS) \X (0..BS) \X (0..BS)
-F3 == (FLO..FHI) \X (FLO..FHI) \X (FLO..FHI)
+F3 == ((-FNEG)..FHI) \X ((-FNEG)..FHI) \X ((-FNEG)..FHI)
 
 Cases2  == {Seq2Case(d) : d \in E2}
 Cases3  == {Seq3Case(d) : d \in E3}
